@@ -358,9 +358,13 @@ class Runtime:
     def gate_body(self, node: str, args: dict) -> Any:
         rec = self._begin(node, args, kind="gate")
         self._run_monitors(rec)
-        self._maybe_raise(rec, "before")
-        spec = self.node_specs[node]
-        dec = decide(spec["decide"], args, rec["i"], spec.get("fid", node))
+        self._track_enter(rec)  # a routing function is a node function: it counts as executing while it runs
+        try:
+            self._maybe_raise(rec, "before")
+            spec = self.node_specs[node]
+            dec = decide(spec["decide"], args, rec["i"], spec.get("fid", node))
+        finally:
+            self._track_exit(rec)
         self.log("exit", n=node, r=rec["r"], i=rec["i"], key=rec["key"], v=dec, c=rec["c"], nk="gate")
         self._run_monitors(self.history[-1])
         return dec
